@@ -312,6 +312,6 @@ def action_n(n: int) -> bool:
     """
     # the solver chooses the table index; the real runner then runs for ADM[n] with tracing off (12 ms instead of 250 ms
     # per choice), so the WHOLE menu product is covered
-    n = conc_bits(n, 20)
+    n = conc_bits(n, len(ADM).bit_length())
     with NoTracing():
         return V(_action(*ADM[n]) == "")
